@@ -11,9 +11,10 @@ from ..framework import Case, Check
 RULE = ("verify_gpg_signature on harness-made OpenPGP-shape entries (payloads of 0-300 bytes, hashed headers of 1-300 bytes, 10 keys) and on every "
         "single-bit and structural corruption of payload, headers, signature and key; digests vs the model's SHA-256; signatures freshly produced by the "
         "GnuPG binary (fresh ed25519 keys + the repository's test keys) over generated metadata, transcribed by the library's own GPG signing path "
-        "through a stand-in for securesystemslib, then verified and corrupted.  non-trivial = a valid entry or a single-fault corruption of one; distinct by entry")
+        "through a stand-in for securesystemslib, then verified and corrupted; the library's GPG signing path (dict / file / sign_via_gpg / fetch_keyval) vs its model with the signer's outputs "
+        "fixed per case (valid / malformed / raising signer, fingerprint spellings, non-signable envelopes, broken files, missing dependency).  non-trivial = a valid entry or a single-fault corruption of one; distinct by entry")
 
-THEOREMS = ["verifyGpg_iff", "gpgDigest_def", "digestInput_injective", "change_rejected_or_collision", "counts_gpg_iff"]
+THEOREMS = ["verifyGpg_iff", "gpgDigest_def", "digestInput_injective", "change_rejected_or_collision", "counts_gpg_iff", "gpg_path_interoperates", "gpg_path_needs_dependency"]
 
 
 def corruptions(rng, entry, key_hex, data):
@@ -100,6 +101,54 @@ def run(ck: Check) -> None:
             ck.mismatch_kinds["digest"] = ck.mismatch_kinds.get("digest", 0) + 1
             ck.mismatches.append({"corr": "corr:gpg-digest/bytes", "line": ln[:300], "impl": w, "model": got, "tag": "digest", "meta": {}, "stdout_encoding": "utf-8"})
     ck.correspondences.add("corr:gpg-digest/bytes")
+
+    # the library's GPG signing path against its model (CCT/Model/RootSigning.lean): the signer's outputs are fixed per case
+    gcases = []
+    FPR = "f075dd2f6f4cb3bd76134bbb81b6ca16ef9cd589"
+    fprs_bad = [FPR.upper(), FPR[:-1], FPR + "0", " " + FPR, FPR[:4] + " " + FPR[4:], FPR[:-1] + "g", "", None, 5, FPR.encode(), [FPR], proto.Opaque(0)]
+    fprs_fetch = [FPR.upper(), "F075 DD2F 6F4C B3BD 7613  4BBB 81B6 CA16 EF9C D589", "f075\xa0dd2f6f4cb3bd76134bbb81b6ca16ef9cd589", FPR[:-1], FPR + "\n", "\uff26" + FPR[1:],
+                  "\u0130" + FPR[1:], None, 5, FPR.encode(), bytearray(FPR.encode()), [FPR], proto.Opaque(0), ""]
+    for i in range(120 if ck.thorough else 40):
+        k = gen.key(rng.randrange(10))
+        payload = envgen.payload(rng)
+        env = gen.envelope(payload)
+        if rng.random() < 0.6:
+            gen.sign_env(env, [gen.key(j) for j in rng.sample(range(10), rng.randint(1, 3))], rng.random() < 0.5, rng)
+        hdr = gen.rand_hdr(rng)
+        data = gen.oracle_bytes(payload)
+        oh, sg, q = hdr.hex(), k.sign(gen.gpg_digest(data, hdr)).hex(), k.hex
+        r = rng.random()
+        if r < 0.15:
+            oh, sg, q = rng.choice([(None, sg, q), (oh, None, q), (oh, sg, None), ("zz", "not hex", "Q"), ("", "", ""), (oh.upper(), sg.upper(), q.upper())])
+        elif r < 0.25 and env["signatures"]:
+            q = next(iter(env["signatures"]))         # the signer's key already has an entry: replaced, others untouched
+        sslib = rng.random() > 0.1
+        fpr = FPR if rng.random() < 0.7 else rng.choice(fprs_bad)
+        e2 = env
+        r = rng.random()
+        if r < 0.25:
+            e2 = rng.choice([{"signatures": {}}, {"signed": payload}, {"signatures": [], "signed": payload}, {"signatures": {}, "signed": payload, "x": 1}, [], None, "env", 5,
+                             proto.Opaque(1), {"signatures": None, "signed": payload}])
+        gcases.append(Case("gpg", ["dict", sslib, oh, sg, q, e2, fpr], tag="gpg-path:dict", group=5000 + i))
+        # file level: canonical / re-laid-out / broken files
+        import random as _random
+        from .. import jsontext
+        fb = rng.choice([gen.oracle_bytes(env), jsontext.rand_text(_random.Random(i), env).encode("utf-8", "surrogatepass"), b"{", b"", None, gen.oracle_bytes({"signed": 1}), b"[1, 2]"]) if rng.random() < 0.5 else gen.oracle_bytes(env)
+        gcases.append(Case("gpg", ["file", sslib, oh, sg, q, fb, fpr if not isinstance(fpr, proto.Opaque) else FPR], tag="gpg-path:file", group=5000 + i))
+        dv = rng.choice([data, bytearray(data), b"", data.decode("utf-8", "replace"), None, 5, [1], proto.Opaque(2)]) if rng.random() < 0.4 else data
+        gcases.append(Case("gpg", ["via", sslib, oh, sg, q, dv, fpr, rng.random() < 0.5], tag="gpg-path:sign_via_gpg", group=5000 + i))
+        gcases.append(Case("gpg", ["fetch", sslib, oh, sg, q, FPR if rng.random() < 0.3 else rng.choice(fprs_fetch)], tag="gpg-path:fetch_keyval", group=5000 + i))
+    for r in ck.run_cases(gcases, "corr:gpg-signing-path/value-or-error-class"):
+        ck.nontrivial_add(("gpgpath", r.case.tag, r.impl[:60], proto.enc(r.case.args[5])[:80] if not isinstance(r.case.args[5], (bytes, type(None))) else len(r.case.args[5] or b"")))
+        # property-level oracle on the successful dict-level runs: entry filed under q, transcribed as {other_headers, signature}, nothing else touched
+        if r.case.args[0] == "dict" and r.impl.startswith("V "):
+            ck.oracle_checks += 1
+            _fn, _sl, oh, sg, q, e2, fpr = r.case.args
+            got = proto.dec(r.impl[2:])
+            want = {"signatures": {**e2["signatures"], q: {"other_headers": oh, "signature": sg}}, "signed": e2["signed"]}
+            if not proto.deep_equal(got, want):
+                ck.violation("the GPG signing path does not file exactly {other_headers, signature} under the key's raw public value, leaving the rest of the envelope as it was",
+                             {"request": impl.enc_case("gpg", r.case.args)[:800], "result": r.impl[:600]}, "gpg-path-transcription")
 
     # GnuPG interoperability through the library's own GPG signing path
     if not gpgshim.gpg_available():
